@@ -163,6 +163,7 @@ def check(rec, st):
     vals = {v[0]: v[1] for v in rec["new_inputs"]}
     ovals = {v[0]: v[1] for v in rec["orig_inputs"]}
     fee_new = fee_orig = None
+    shrunk_underpays = False
     if all(v >= 0 for v in vals.values()) and all(v >= 0 for v in ovals.values()):
         fee_new = sum(vals[op] for op in nin) - sum(o["value"] for o in new["vout"])
         fee_orig = sum(ovals[op] for op in oin) - sum(o["value"] for o in orig["vout"])
@@ -171,7 +172,14 @@ def check(rec, st):
         if rec["old_fee"] != fee_orig or rec["new_fee"] != fee_new:
             bad("fee-mismatch", "feebumper reports old/new fee %d/%d, recomputed %d/%d" % (rec["old_fee"], rec["new_fee"], fee_orig, fee_new))
         need_incr = fee_orig + fee_at(rec["incr"], new["vsize"])
-        if fee_new < need_incr:
+        if fee_new < need_incr and supplied and rec["req_rate"] < 0 and new["vsize"] < orig["vsize"]:
+            # one specific class gets its own stable key: caller-supplied outputs make the replacement smaller than the original and no
+            # feerate was given, so "old feerate + increment" times the smaller size is less than the old absolute fee
+            shrunk_underpays = True
+            bad("supplied-outputs-shrink-underpays", "replacement built from caller-supplied outputs is smaller (%d vB < %d vB) and pays %d < original fee %d + incremental relay fee = %d; mempool verdict: %s"
+                % (new["vsize"], orig["vsize"], fee_new, fee_orig, need_incr, rec["accept"]["reason"] if rec.get("accept") and not rec["accept"]["ok"] else "accepted"),
+                {"fee_new": fee_new, "fee_orig": fee_orig, "vsize_new": new["vsize"], "vsize_orig": orig["vsize"]})
+        elif fee_new < need_incr:
             bad("fee-below-replacement-minimum", "replacement pays %d < original fee %d + incremental relay fee for %d vB = %d" % (fee_new, fee_orig, new["vsize"], need_incr),
                 {"fee_new": fee_new, "fee_orig": fee_orig, "vsize_new": new["vsize"], "vsize_orig": orig["vsize"]})
         if rec["req_rate"] >= 0:
@@ -190,6 +198,9 @@ def check(rec, st):
         bad("not-signed", "the wallet could not sign its own replacement")
         return
     acc = rec["accept"]
+    if shrunk_underpays:
+        st.seen("shrunk_underpaying_replacements")
+        return
     if not acc["ok"]:
         bad("replacement-rejected", "the mempool rejects the replacement: " + acc["reason"], {"fee_new": fee_new, "fee_orig": fee_orig, "vsize_new": new["vsize"]})
     else:
